@@ -33,6 +33,24 @@ theorem fw_ok {α} {x : Tensor α} {F : R (Shape × Moves)} {raw : Nat → α} {
   simp only [checkDevice_ok hl, hF, bind, Except.bind]
   exact runSet_ok hb hw
 
+/-- the common shape of a backward entry point with operands `gy`, `gx` -/
+theorem bw_inv {α} [Add α] {gy gx g : Tensor α} {F : R Moves}
+    (h : (do checkDevice gy; checkDevice gx; let m ← F; runAdd m gy gx) = .ok g) :
+    gy.loc = .here ∧ gx.loc = .here ∧ ∃ m, F = .ok m ∧ m.InBounds gy.shape.size gx.shape.size ∧
+      g = ⟨gx.shape, scatterAdd m.didx m.sidx gy.data m.count gx.data, .here⟩ := by
+  cases hc : checkDevice gy with
+  | error e => simp [hc, bind, Except.bind] at h
+  | ok u =>
+    cases hc2 : checkDevice gx with
+    | error e => simp [hc, hc2, bind, Except.bind] at h
+    | ok u2 =>
+      cases hF : F with
+      | error e => simp [hc, hc2, hF, bind, Except.bind] at h
+      | ok m =>
+        simp only [hc, hc2, hF, bind, Except.bind] at h
+        have ⟨h1, h2⟩ := runAdd_inv h
+        exact ⟨checkDevice_inv hc, checkDevice_inv hc2, m, rfl, h1, h2⟩
+
 /-- a sequential writer leaves `src (sidx o)` at `o` -/
 theorem seqWrite_apply {α} {m : Moves} (hd : ∀ t, m.didx t = t) (src raw : Nat → α) {o : Nat} (ho : o < m.count) :
     scatterSet m.didx m.sidx src m.count raw o = src (m.sidx o) := by
